@@ -57,6 +57,8 @@ def holder_zoo(shape, seed, kinds=("tensor", "sptensor", "ktensor", "ttensor", "
         zoo.append({"kind": "tensor", "shape": s, "vseed": seed})
         if n >= 2:
             zoo.append({"kind": "tensor", "shape": s, "vseed": seed, "pat": [1 if i % 2 else 0 for i in range(n)]})
+            # non-initial state: a tensor that reached its shape by growth (C-ordered internal buffer)
+            zoo.append({"kind": "tensor", "shape": s, "vseed": seed, "grown": True})
     if "sptensor" in kinds:
         for nm, p in sparse_patterns(n):
             k = sum(p)
